@@ -43,6 +43,7 @@ type FuncContract struct {
 	Loops     map[int]*LoopContract
 	Callsites []*CallsiteClause
 	Consumes  []string
+	NoEffects []string      // effect classes the function must not (transitively, through static calls) perform
 	SpawnParent [][2]string // ghost, expr
 	SpawnChild  [][2]string
 	Pure      bool
@@ -71,6 +72,7 @@ type StructContract struct {
 	Conds       map[string]string // cond field -> mutex field
 	GhostFields map[string]string // name -> sort
 	OnRelease   []*OnRelease
+	Stable      map[string][]string // field -> functions allowed to write it
 	File        string
 	Line        int
 }
@@ -115,6 +117,7 @@ type Contracts struct {
 	SMT     []RawSMT
 	Lemmas  []*Lemma
 	Axioms  []*Axiom
+	EffectClasses map[string][]string
 	Files   []string
 }
 
@@ -276,6 +279,19 @@ func (cs *Contracts) parseLines(file string, lines []srcLine, assumed bool) erro
 			}
 			cs.SpecFns[sf.Name] = sf
 			curF, curS = nil, nil
+		case "effectclass":
+			k := strings.Index(rest, "=")
+			if k < 0 {
+				return errf(ln, "effectclass name = f1, f2")
+			}
+			if cs.EffectClasses == nil {
+				cs.EffectClasses = map[string][]string{}
+			}
+			name := strings.TrimSpace(rest[:k])
+			for _, f := range splitTop(rest[k+1:]) {
+				cs.EffectClasses[name] = append(cs.EffectClasses[name], strings.TrimSpace(f))
+			}
+			curF, curS = nil, nil
 		case "axiom":
 			c, err := mkClause(file, ln, rest)
 			if err != nil {
@@ -361,6 +377,22 @@ func parseStructClause(s *StructContract, file string, ln int, kw, rest string) 
 			return errf("cond <field> guards <mutex>")
 		}
 		s.Conds[fs[0]] = fs[2]
+	case "stable":
+		// stable f, g writers F1, F2
+		fs := rest
+		var writers []string
+		if k := strings.Index(rest, " writers "); k >= 0 {
+			fs = rest[:k]
+			for _, w := range splitTop(rest[k+9:]) {
+				writers = append(writers, strings.TrimSpace(w))
+			}
+		}
+		if s.Stable == nil {
+			s.Stable = map[string][]string{}
+		}
+		for _, f := range strings.Split(fs, ",") {
+			s.Stable[strings.TrimSpace(f)] = writers
+		}
 	case "ghostfield":
 		fs := strings.Fields(rest)
 		if len(fs) != 2 {
@@ -437,6 +469,10 @@ func parseFuncClause(f *FuncContract, file string, ln int, kw, rest string) erro
 	case "consumes":
 		for _, d := range strings.Split(rest, ",") {
 			f.Consumes = append(f.Consumes, strings.TrimSpace(d))
+		}
+	case "noeffects":
+		for _, d := range strings.Split(rest, ",") {
+			f.NoEffects = append(f.NoEffects, strings.TrimSpace(d))
 		}
 	case "spawn_parent", "spawn_child":
 		j := strings.Index(rest, "=")
